@@ -216,7 +216,7 @@ pub fn main(args: &[String]) -> i32 {
     let keep = [
         "enq", "drain", "publish", "skip", "requeue", "requeue_e", "requeue_done", "worker_req", "worker_done", "tick",
         "trigger", "ret_drop", "ret_mark", "ret_wait", "ret_marked", "batch_fail", "alloc_fail", "final_flush_fail", "poison",
-        "flush_begin", "flush_end", "settled", "drop_begin", "drop_end", "fault_on", "fault_off", "pin_on", "pin_off",
+        "pin", "unpin", "flush_begin", "flush_end", "settled", "drop_begin", "drop_end", "fault_on", "fault_off", "pin_on", "pin_off",
     ];
     writeln!(f, "{}", json!({"e": "cfg", "kind": kind, "cpus": cpus, "seed": seed, "threads": threads})).unwrap();
     for e in &evs {
